@@ -210,6 +210,7 @@ class Ctx:
         self.notes: list[str] = []
         self.t0 = time.time()
         self.inconclusive: list[str] = []
+        self.extra: dict = {}  # free-form per-shard data for a property's cross-shard `post` step
 
     def count(self, name, n=1):
         self.counters[name] = self.counters.get(name, 0) + n
@@ -248,6 +249,7 @@ class Ctx:
             "samples": self.samples,
             "notes": self.notes,
             "inconclusive": self.inconclusive,
+            "extra": self.extra,
             "wall_s": round(time.time() - self.t0, 3),
         }
 
